@@ -30,7 +30,7 @@ func (c03) Assumptions() []string {
 }
 func (c03) Floors(tier string, c map[string]int64) []string {
 	var out []string
-	for _, k := range []string{"include_calls", "include_repeat", "include_primary_member", "holder/Resources", "holder/SoftCollection", "holder/WrapperCollection", "holder/Range-result", "kind/null", "kind/resource", "kind/collection", "kind/identifier", "kind/identifiers", "with_errors", "data_and_errors", "exotic_type_name", "prefix/no-trailing-slash", "prefix/trailing-slash"} {
+	for _, k := range []string{"include_calls", "marshal_between_includes", "include_repeat", "include_primary_member", "holder/Resources", "holder/SoftCollection", "holder/WrapperCollection", "holder/Range-result", "kind/null", "kind/resource", "kind/collection", "kind/identifier", "kind/identifiers", "with_errors", "data_and_errors", "exotic_type_name", "prefix/no-trailing-slash", "prefix/trailing-slash"} {
 		if c[k] == 0 {
 			out = append(out, "never observed: "+k)
 		}
@@ -41,6 +41,7 @@ func (c03) Floors(tier string, c map[string]int64) []string {
 type c03include struct {
 	Res     *ResSpec `json:"res"`
 	Primary int      `json:"primary_index"` // >= 0: pass the primary member itself (-1: a fresh object)
+	MarshalAfter bool `json:"marshal_after,omitempty"` // MarshalDocument is called right after this Include
 }
 
 func (m c03) marshalAndValidate(c *Ctx, d *DocSpec, incl []c03include, useRange bool, tag string) {
@@ -68,6 +69,11 @@ func (m c03) marshalAndValidate(c *Ctx, d *DocSpec, incl []c03include, useRange 
 				}
 				b.Doc.Include(res)
 				c.Count("include_calls")
+				if ic.MarshalAfter {
+					// a document may be marshaled and then extended: marshaling reorders doc.Included
+					_, _ = jsonapi.MarshalDocument(b.Doc, b.URL)
+					c.Count("marshal_between_includes")
+				}
 			}
 		}
 		out, err = jsonapi.MarshalDocument(b.Doc, b.URL)
@@ -219,6 +225,11 @@ func (m c03) Case(c *Ctx, r *RNG) {
 				id = genID(r)
 			}
 			incl = append(incl, c03include{Res: genResource(r, t, id), Primary: -1})
+		}
+	}
+	for i := range incl {
+		if r.Chance(1, 6) {
+			incl[i].MarshalAfter = true
 		}
 	}
 	useRange := d.Kind == "collection" && r.Chance(1, 3)
